@@ -36,19 +36,28 @@ def generate_histories(ctx, n, depth):
     hists = [seqify(h) for h in tlc.parse_prints(out, "HIST")]
     uniq = {}
     for h in hists:
-        calls = [e for e in h if e["op"] != "create"]
+        calls = [e for e in h if e["op"] not in ("create", "fill")]
         if len(calls) >= 4:
             uniq.setdefault(digest(h), h)
     hs = list(uniq.values())
     # prefer histories with an A-B-A pattern of arguments on one function object
     def aba(h):
-        calls = [(e["f"], e["p"], e["init"], e["seed"]) for e in h if e["op"] != "create"]
+        calls = [(e["f"], e["p"], e["init"], e["seed"]) for e in h if e["op"] not in ("create", "fill")]
         return any(calls[i] == calls[k] and calls[j] != calls[i] and calls[j][0] == calls[i][0]
                    for i in range(len(calls)) for j in range(i + 1, len(calls)) for k in range(j + 1, len(calls)))
+    # ... and histories in which a held params object (the filled template) is passed to a function object that is later
+    # called with another parameter set
+    def held_then_other(h):
+        calls = [e for e in h if e["op"] not in ("create", "fill")]
+        return any(a["via"] == "held" and b["f"] == a["f"] and b["p"] != a["p"] for i, a in enumerate(calls) for b in calls[i + 1:])
     hs.sort(key=lambda h: (not aba(h), digest(h)))
+    held = [h for h in hs if held_then_other(h)]
+    rest = [h for h in hs if not held_then_other(h)]
+    k = min(len(held), max(1, n // 3))
+    hs = held[:k] + rest[:n - k] + held[k:]
     if len(hs) < min(n, 5):
         raise tlc.MachineryError("tlc -simulate produced too few usable histories")
-    return hs[:n], sum(1 for h in hs[:n] if aba(h))
+    return hs[:n], sum(1 for h in hs[:n] if aba(h)), sum(1 for h in hs[:n] if held_then_other(h))
 
 
 def pipeline_cases(spec, records, cid0):
@@ -85,7 +94,7 @@ def run(ctx: Ctx) -> Result:
     if not mc["ok"]:
         raise tlc.MachineryError("MC_Api failed\n" + mc["out"][-1500:])
     n = ctx.n(24, 300)
-    hists, n_aba = generate_histories(ctx, n, 10)
+    hists, n_aba, n_held = generate_histories(ctx, n, 10)
     rng = ctx.rng("models")
     specs = []
     for i, h in enumerate(hists):
@@ -125,19 +134,21 @@ def run(ctx: Ctx) -> Result:
         elif v["v"][0] == "FAIL":
             add_violation(ctx, res, "result-vs-own-args:" + v["v"][1], {"kind": "pipeline-case", "property": ctx.prop, "case": c, "verdict": v},
                           f"result of a call does not follow from its own arguments: {v['v'][2][:300]}")
-    n_calls = sum(1 for s in specs for e in s["hist"] if e["op"] != "create")
-    res.merge_cov(evaluations=len(specs), traces_validated_against_impl=n_ok, calls=n_calls, distinct_nontrivial=n_aba,
+    n_calls = sum(1 for s in specs for e in s["hist"] if e["op"] not in ("create", "fill"))
+    res.merge_cov(evaluations=len(specs), traces_validated_against_impl=n_ok, calls=n_calls, distinct_nontrivial=n_aba, histories_with_held_params_then_other_call=n_held,
                   value_level_cases=len(pcases), value_level_ok=p_ok, other_process_runs=sum(len(t["extern"]) for t in traces),
                   states=st["distinct"] + pst["distinct"] + mc["distinct"], transitions=st["generated"] + pst["generated"] + mc["generated"],
                   mc_states=mc["distinct"],
                   rule="histories of depth 10 over 2 models x 3 parameter sets x 2 initial batches x 2 seeds x jit on/off, generated by "
                        "tlc -simulate from spec/Api.tla (deduplicated, >= 4 calls); parameter leaves are python floats, numpy or jax "
-                       "scalars at random; every third history is also redone in a fresh process under PYTHONHASHSEED 1, 2 or random; "
+                       "scalars at random; the params object of a call is a fresh one or the template returned by get_lcm_function, filled in place by the "
+                       "user and held on to (Api!held); every third history is also redone in a fresh process under two of PYTHONHASHSEED 1, 3, 4, 7, random (thorough: 3, 4, 7 and random); "
                        "non-trivial = history with an A-B-A argument pattern on one function object",
                   samples=[[{k: e[k] for k in ("op", "f", "model", "target", "jit", "p", "init", "seed", "vfrom")} for e in specs[0]["hist"]]])
     res.assumptions += [
         "TraceApi: every recorded call is an enabled action of spec/Api.tla; equal denotation term => identical result digest "
-        "(bitwise; exact dyadic model family, so jit on/off and vector width cannot change bits); model/params fingerprints unchanged",
+        "(bitwise; exact dyadic model family, so jit on/off and vector width cannot change bits); model/params fingerprints unchanged, and so are the fingerprints of every "
+        "params object the user has passed before and still holds",
         "TracePipeline: every result is additionally validated against the reference semantics of its own arguments",
     ]
     return res
